@@ -790,7 +790,7 @@ Fixpoint p_stream (k : nat) (fuel : nat) (ctx : symctx) (l : list N) : option (l
         match p_val fuel ctx false [] l1 with
         | Some (v, r) =>
           match is_lst v with
-          | Some fs => p_stream k' fuel (apply_lst ctx fs) r
+          | Some fs => match apply_lst ctx fs with Some ctx' => p_stream k' fuel ctx' r | None => None end
           | None => option_map (cons v) (p_stream k' fuel ctx r)
           end
         | None => None
